@@ -129,8 +129,11 @@ CLAIMED = {
              "frontier cache with traverse on a miss and traverse_from(parent, segment) on a hit, explore, cache maintenance - yields "
              "exactly this pre-order (nodes_loop_is_preorder); the raw-level transcriptions of _get_next_key / _get_key_after over the "
              "database (annotate_node + traverse_from over rlp-decoded nodes) equal the tree-level functions on every stored canonical "
-             "trie (Raw.next_key_refines, Raw.key_after_refines). Tie: keys/items/values/nodes sequences (also against the model's "
-             "transcription of the loop) and next(k) for stored, neighbouring and foreign keys.",
+             "trie (Raw.next_key_refines, Raw.key_after_refines); the loop of nodes() at raw level - root hash, database of encoded "
+             "bodies, cache of raw bodies - yields the raw images of the tree-level loop on every stored trie (raw_nodes_loop_refines), "
+             "hence over the database any history leaves, pruning on or off, exactly the pre-order sequence and never "
+             "MissingTraversalNode (raw_nodes_is_preorder). Tie: keys/items/values/nodes sequences (also against the model's "
+             "transcription of the loop, at tree level and over the database; with one body withheld: a start of the pre-order, then the  model's MissingTraversalNode) and next(k) for stored, neighbouring and foreign keys.",
         technique="Lean 4 proof (order theory on nibble paths, induction on the tree model) + correspondence check",
         design_ref="6/C10"),
     "C04": dict(
